@@ -437,8 +437,8 @@ theorem skipNext_spec (cap : Nat) (cmp : Compression) (maxOff : Nat) (hmax : max
       skipNextV4_spec cap cmp maxOff hmax file 4 fr pos hrep (by simpa [skipNextSV] using hfit)
 
 /-- a freshly constructed stack stands for the whole data of its underlying reader -/
-theorem rep_fresh (cap : Nat) (u : Under) (hcap : 0 < cap) (hns : NoStall u.sched) :
-    ({ rd := Rd.reset cap u, count := 0 } : CRd).Rep cap u.eofData u.rem 0 :=
+theorem rep_fresh (cap : Nat) (u : Under) (hcap : 0 < cap) (hns : NoStall u.sched) (aligned : Bool := false) :
+    ({ rd := Rd.reset cap u aligned, count := 0 } : CRd).Rep cap u.eofData u.rem 0 :=
   ⟨{ cap_eq := rfl, cap_pos := hcap, ed_eq := rfl, noStall := hns, err_ok := Or.inl rfl },
    by simp [Rd.stream, Rd.reset], fun _ => rfl⟩
 
@@ -469,12 +469,20 @@ theorem rep_new (cap : Nat) (u : Under) (hns : NoStall u.sched) :
     ({ rd := Rd.new cap u, count := 0 } : CRd).Rep (effCap cap) u.eofData u.rem 0 :=
   rep_fresh (effCap cap) u (effCap_pos cap) hns
 
+/-- the same for either constructor (`NewReaderBuf` / `NewAlignedReaderBuf`) -/
+theorem rep_make (aligned : Bool) (cap : Nat) (u : Under) (hns : NoStall u.sched) :
+    ({ rd := Rd.make aligned cap u, count := 0 } : CRd).Rep (effCap cap) u.eofData u.rem 0 :=
+  rep_fresh (effCap cap) u (effCap_pos cap) hns aligned
+
+theorem constructed_cap_pos' (aligned : Bool) (cap : Nat) (u : Under) : 0 < (Rd.make aligned cap u).cap :=
+  effCap_pos cap
+
 /-- `Open` over the buffered stack = `parseFileHeader` of the file -/
 theorem open_spec (cap : Nat) (file : Bytes) (u : Under) (hns : NoStall u.sched)
-    (hrem : u.rem = file) :
-    ∃ fr', (FileRd.new file cap u).open = (liftE (parseFileHeader file), fr') ∧
+    (hrem : u.rem = file) (aligned : Bool := false) :
+    ∃ fr', (FileRd.new file cap u aligned).open = (liftE (parseFileHeader file), fr') ∧
       (∀ v ct, parseFileHeader file = .ok (v, ct) → fr'.Rep (effCap cap) u.eofData file v fileHeaderSize) := by
-  have hrep := rep_new cap u hns
+  have hrep := rep_make aligned cap u hns
   rw [hrem] at hrep
   obtain ⟨c', h1, h2, _⟩ := readFull_spec fileHeaderSize hrep
   by_cases hn : fileHeaderSize ≤ file.length
@@ -483,11 +491,11 @@ theorem open_spec (cap : Nat) (file : Bytes) (u : Under) (hns : NoStall u.sched)
     rw [hsf] at h1 h2
     cases hp : parseFileHeader file with
     | error e =>
-      refine ⟨{ FileRd.new file cap u with rd := c' }, ?_, fun v ct hh => by cases hh⟩
+      refine ⟨{ FileRd.new file cap u aligned with rd := c' }, ?_, fun v ct hh => by cases hh⟩
       simp only [FileRd.open, FileRd.new, h1, parseFileHeader_take file hn, hp, liftE]
     | ok p =>
       obtain ⟨v, ct⟩ := p
-      refine ⟨{ FileRd.new file cap u with rd := c', off := fileHeaderSize, version := v }, ?_, fun v' ct' hh => ?_⟩
+      refine ⟨{ FileRd.new file cap u aligned with rd := c', off := fileHeaderSize, version := v }, ?_, fun v' ct' hh => ?_⟩
       · simp only [FileRd.open, FileRd.new, h1, parseFileHeader_take file hn, hp, liftE]
       · simp only [Except.ok.injEq, Prod.mk.injEq] at hh
         obtain ⟨rfl, rfl⟩ := hh
@@ -498,14 +506,14 @@ theorem open_spec (cap : Nat) (file : Bytes) (u : Under) (hns : NoStall u.sched)
         unfold specFull; rw [if_neg hn, if_pos h0]
       rw [hsf] at h1
       have hp : parseFileHeader file = .error .eof := by unfold parseFileHeader; rw [if_pos hlt, if_pos h0]
-      refine ⟨{ FileRd.new file cap u with rd := c' }, ?_, fun v ct hh => by rw [hp] at hh; cases hh⟩
+      refine ⟨{ FileRd.new file cap u aligned with rd := c' }, ?_, fun v ct hh => by rw [hp] at hh; cases hh⟩
       simp only [FileRd.open, FileRd.new, h1, hp, liftE]
     · have hsf : specFull file fileHeaderSize = (file, some (.e .unexpectedEof), []) := by
         unfold specFull; rw [if_neg hn, if_neg h0]
       rw [hsf] at h1
       have hp : parseFileHeader file = .error .unexpectedEof := by
         unfold parseFileHeader; rw [if_pos hlt, if_neg h0]
-      refine ⟨{ FileRd.new file cap u with rd := c' }, ?_, fun v ct hh => by rw [hp] at hh; cases hh⟩
+      refine ⟨{ FileRd.new file cap u aligned with rd := c' }, ?_, fun v ct hh => by rw [hp] at hh; cases hh⟩
       simp only [FileRd.open, FileRd.new, h1, hp, liftE]
 
 /-- a whole reader program (ReadNext / SkipNext, up to the first error) over the buffered stack gives exactly
@@ -550,10 +558,12 @@ theorem bufRun_eq_streamRun (cap : Nat) (cmp : Compression) (grow : Nat → Nat)
 /-! ## no progress, capacity 0, data that arrives together with EOF -/
 
 theorem fillLoop_stall : ∀ (i : Nat) (b : Rd), b.pend = [] → 0 < b.cap → i ≤ zeroRun b.under.sched →
-    b.fillLoop i = { b with err := some .noProgress, under := { b.under with sched := b.under.sched.drop i } } := by
+    (b.fillLoop i).err = some .noProgress ∧ (b.fillLoop i).pend = [] ∧ (b.fillLoop i).cap = b.cap ∧
+    (b.fillLoop i).aligned = b.aligned ∧ (b.fillLoop i).under.rem = b.under.rem ∧
+    (b.fillLoop i).under.sched = b.under.sched.drop i ∧ (b.fillLoop i).under.eofData = b.under.eofData := by
   intro i
   induction i with
-  | zero => intro b _ _ _; simp [Rd.fillLoop]
+  | zero => intro b hp _ _; simp [Rd.fillLoop, hp]
   | succ i ih =>
     intro b hp hcap hz
     cases hs : b.under.sched with
@@ -563,26 +573,30 @@ theorem fillLoop_stall : ∀ (i : Nat) (b : Rd), b.pend = [] → 0 < b.cap → i
       by_cases hl : l = 0
       · subst hl
         rw [zeroRun_zero] at hz
-        have hr : b.under.read (b.cap - b.pend.length) = ⟨[], none, { b.under with sched := t }⟩ := by
-          simp [Under.read, hs]
+        have hr : b.under.read (b.cap - b.pend.length) =
+            ⟨[], none, { b.under.logged (b.cap - b.pend.length) with sched := t }⟩ := by
+          simp [Under.read, Under.readCore, hs]
         simp only [Rd.fillLoop, hr, List.length_nil, Nat.lt_irrefl, if_false]
-        have := ih ({ b with pend := b.pend ++ [], under := { b.under with sched := t } } : Rd) (by simp [hp]) hcap
+        have := ih ({ b with pend := b.pend ++ [], under := { b.under.logged (b.cap - b.pend.length) with sched := t } } : Rd) (by simp [hp]) hcap
           (by show i ≤ zeroRun t; omega)
         dsimp only at this
-        rw [this]
-        simp [hp]
+        obtain ⟨g1, g2, g3, g4, g5, g6, g7⟩ := this
+        exact ⟨g1, g2, g3, g4, g5, by rw [g6]; simp, g7⟩
       · rw [zeroRun_pos l t hl] at hz; omega
 
 /-- 100 consecutive empty reads: `ReadByte` reports `io.ErrNoProgress` — an error, no byte is invented and no
 byte is lost (the stream is unchanged, 100 schedule entries are used up, the sticky error is cleared) -/
 theorem readByte_no_progress (b : Rd) (hp : b.pend = []) (he : b.err = none) (hcap : 0 < b.cap)
     (hz : maxConsecutiveEmptyReads ≤ zeroRun b.under.sched) :
-    b.readByte = (.error .noProgress,
-      { b with under := { b.under with sched := b.under.sched.drop maxConsecutiveEmptyReads } }) := by
+    ∃ b', b.readByte = (.error .noProgress, b') ∧ b'.pend = [] ∧ b'.err = none ∧ b'.cap = b.cap ∧
+      b'.under.rem = b.under.rem ∧ b'.under.sched = b.under.sched.drop maxConsecutiveEmptyReads ∧
+      b'.stream = b.stream := by
   have hfill : b.fill = some (b.fillLoop maxConsecutiveEmptyReads) := by
     simp only [Rd.fill, hp, List.length_nil]; rw [if_neg (by omega)]
-  simp only [Rd.readByte, Rd.readByteLoop, hp, he, hfill, fillLoop_stall _ b hp hcap hz]
-  try (cases b; simp_all)
+  obtain ⟨g1, g2, g3, _, g5, g6, _⟩ := fillLoop_stall _ b hp hcap hz
+  refine ⟨{ b.fillLoop maxConsecutiveEmptyReads with err := none }, ?_, g2, rfl, g3, g5, g6, ?_⟩
+  · simp only [Rd.readByte, Rd.readByteLoop, hp, he, hfill, g1, g2]
+  · simp [Rd.stream, g2, g5, hp]
 
 /-- capacity 0 (`make([]byte, 0)` as the buffer): `ReadByte` panics in `fill` -/
 theorem readByte_cap0_panics (b : Rd) (hcap : b.cap = 0) (hp : b.pend = []) (he : b.err = none) :
@@ -600,19 +614,23 @@ theorem readFull_uncounted_reset (cap k : Nat) (d : Bytes) (hd : d ≠ []) (hcap
     cases d with
     | nil => exact absurd rfl hd
     | cons x xs => exact ⟨x, xs, rfl⟩
-  have hread : c.read ((x :: xs).length) =
-      ⟨x :: xs, some (.e .eof), { rd := { c.rd with under := { c.rd.under with rem := [] } }, count := k }⟩ := by
-    have hcap' : cap ≤ xs.length + 1 := by simpa using hcap
+  have hcap' : cap ≤ xs.length + 1 := by simpa using hcap
+  have hread : (c.read ((x :: xs).length)).data = x :: xs ∧ (c.read ((x :: xs).length)).err = some (.e .eof) ∧
+      (c.read ((x :: xs).length)).st.count = k := by
     simp only [CRd.read, Rd.read, if_neg hn0]
-    simp [c, Rd.reset, Under.read, Under.deliver, hcap']
-  have : c.readFull (x :: xs).length = ⟨x :: xs, none,
-      { rd := { c.rd with under := { c.rd.under with rem := [] } }, count := k }⟩ := by
-    simp only [CRd.readFull]
-    have hf : (x :: xs).length + c.rd.under.sched.length + 1 = ((x :: xs).length + 0) + 1 := by simp [c, Rd.reset]
-    rw [hf]
-    simp only [CRd.readFullLoop, List.length_nil, hpos, if_true, Nat.sub_zero, hread, finishFull, List.nil_append,
-      ge_iff_le, Nat.le_refl]
-  rw [this]; exact ⟨rfl, rfl, rfl⟩
+    simp [c, Rd.reset, Under.read, Under.readCore, Under.logged, Under.deliver, hcap']
+  cases hr : c.read ((x :: xs).length) with
+  | mk d e st =>
+    rw [hr] at hread
+    obtain ⟨rfl, rfl, hk⟩ := hread
+    have : c.readFull (x :: xs).length = ⟨x :: xs, none, st⟩ := by
+      simp only [CRd.readFull]
+      have hf : (x :: xs).length + c.rd.under.sched.length + 1 = ((x :: xs).length + 0) + 1 := by
+        simp [c, Rd.reset]
+      rw [hf]
+      simp only [CRd.readFullLoop, List.length_nil, hpos, if_true, Nat.sub_zero, hr, finishFull, List.nil_append,
+        ge_iff_le, Nat.le_refl]
+    rw [this]; exact ⟨rfl, rfl, hk⟩
 
 theorem readFull_uncounted (cap k : Nat) (d : Bytes) (hd : d ≠ []) (hcap : effCap cap ≤ d.length) :
     let c : CRd := { rd := Rd.new cap { rem := d, sched := [], eofData := true }, count := k }
